@@ -266,16 +266,20 @@ type Node struct {
 	K1 int
 }
 
-func nodesJSON(ns []*Node) []any {
-	out := []any{}
-	for _, n := range ns {
-		out = append(out, n.JSON())
-	}
-	return out
-}
-
 // JSON renders exactly the fields spec/Query.tla reads for the node's type.
-func (n *Node) JSON() map[string]any {
+func (n *Node) JSON() map[string]any { return n.JSONMap(nil) }
+
+// JSONMap is JSON with the document ids of doc-id queries translated (ids the
+// map does not know - documents that are not live - are dropped: they cannot
+// match).
+func (n *Node) JSONMap(idmap func(int) (int, bool)) map[string]any {
+	nodesJSON := func(ns []*Node) []any {
+		out := []any{}
+		for _, k := range ns {
+			out = append(out, k.JSONMap(idmap))
+		}
+		return out
+	}
 	m := map[string]any{"type": n.Type}
 	switch n.Type {
 	case "term":
@@ -324,7 +328,13 @@ func (n *Node) JSON() map[string]any {
 		m["field"], m["val"] = n.Field, n.Val
 	case "docid":
 		ids := []int{}
-		ids = append(ids, n.IDs...)
+		for _, id := range n.IDs {
+			if idmap == nil {
+				ids = append(ids, id)
+			} else if r, ok := idmap(id); ok {
+				ids = append(ids, r)
+			}
+		}
 		m["ids"] = ids
 	case "all", "none":
 	case "conj":
